@@ -4,8 +4,10 @@ import ctypes
 import datetime as dt
 import decimal
 import hashlib
+import io
 import json
 import locale
+import logging
 import os
 import random
 import shutil
@@ -31,7 +33,10 @@ EQUIV = {"PV.Equiv.TranslatedOrbitNum": ["run_solo", "modelCall_solo", "get_orbi
 RULE = ("per near-earth TLE (repo test TLEs + generated LEO sets, epoch at and off the ascending node): (1) histories of "
         "<= 10 mixed queries drawn with repetition from a per-TLE pool (get_position scalar/array, normalised or not; "
         "get_lonlatalt; get_observer_look scalar/array; get_orbit_number incl. tbus_style/as_float; get_last_an_time; "
-        "get_next_passes 1-2 h; a new pool every 10 histories, alternately with times spread over days and with all times "
+        "get_next_passes 1-2 h; array-taking queries whose time argument is a container of Python objects: an object ndarray "
+        "of aware UTC datetimes, one of aware datetimes with other offsets, and two with a drawn container (object ndarray 1-d/"
+        "2-d, list, tuple) and element kind (aware UTC, aware other offsets, naive, datetime64 scalars, mixed), whose element "
+        "objects must be the same objects after the call; a new pool every 10 histories, alternately with times spread over days and with all times "
         "within 50 minutes of one instant, the epoch or another) on ONE object, every result compared byte-wise with the same "
         "query on a FRESH object; "
         "returned arrays and argument arrays are overwritten by the caller afterwards; (1b) aliasing histories of 2-8 "
@@ -58,11 +63,14 @@ RULE = ("per near-earth TLE (repo test TLEs + generated LEO sets, epoch at and o
         "which no query has run; (1e) environment independence: every kind of query (get_position, get_lonlatalt, "
         "get_observer_look method and module-level function, get_orbit_number, get_last_an_time, get_next_passes aimed at the "
         "ground track) with every representation of the time argument (naive datetime, aware UTC datetime, datetime64 "
-        "[us]/[s]/[ms]/[ns]/[m], datetime64 array; first element set: all combinations, others: naive datetime + 3 drawn) on an "
+        "[us]/[s]/[ms]/[ns]/[m], datetime64 array, object arrays of aware UTC / other-offset datetimes; first element set: all "
+        "combinations, others: naive datetime + 3 drawn; plus one pass search over 6-24 h that finds several passes) on an "
         "object built and queried under three process environments - TZ=UTC0, the run's own zone, a zone on the other side of "
         "Greenwich (os.environ['TZ'] + time.tzset()), each with a random choice of (all of them with the run's own zone): other "
         "working directory, TLES/PYORBITAL_CONFIG_PATH/PPP_CONFIG_DIR set to other values, LC_ALL locale if the host has "
-        "another one, decimal context precision/rounding, numpy print options, np.seterr(all=ignore|warn|call) - byte-wise "
+        "another one, decimal context precision/rounding, numpy print options, np.seterr(all=ignore|warn|call), the process-wide "
+        "logging configuration (root / pyorbital / pyorbital.orbital logger at DEBUG with a NullHandler or a StringIO handler - "
+        "always one of these with the run's own zone -, logging.disable, other levels; restored afterwards) - byte-wise "
         "equal to the result under the run's own zone with nothing else changed; (2) real threads under a "
         "deterministic scheduler (sys.settrace, semaphores; a switch happens only before a source line of pyorbital/orbital.py): "
         "for two concurrent get_orbit_number calls ALL single pre-emption points in get_orbit_number's own frame, the first "
@@ -336,6 +344,48 @@ LOCALES = ["de_DE.UTF-8", "fr_FR.UTF-8", "tr_TR.UTF-8", "C.utf8", "C.UTF-8", "PO
 SETERR_MODES = ["ignore", "warn", "call"]             # modes that do not turn a floating-point condition into an exception
 
 
+# process-wide LOGGING configuration: who listens, and at which level, is not an argument of a query
+LOGGING_DEBUG = [{"logger": "pyorbital.orbital", "level": "DEBUG", "handler": "null"},
+                 {"logger": "pyorbital.orbital", "level": "DEBUG", "handler": "stringio"},
+                 {"logger": "pyorbital", "level": "DEBUG", "handler": "null"},
+                 {"logger": "pyorbital", "level": "DEBUG", "handler": "stringio"},
+                 {"logger": "", "level": "DEBUG", "handler": "null"},
+                 {"logger": "", "level": "DEBUG", "handler": "stringio"}]
+LOGGING_OTHER = [{"disable": "CRITICAL"},
+                 {"logger": "", "level": "DEBUG", "handler": "stringio", "disable": "INFO"},
+                 {"logger": "pyorbital", "level": "INFO", "handler": "stringio"},
+                 {"logger": "", "level": "CRITICAL", "handler": "null"}]
+
+
+def apply_logging(cfg):
+    """configure the logging module as described by cfg; -> what restore_logging needs"""
+    root = logging.getLogger()
+    saved = {"disable": root.manager.disable, "root_handlers": list(root.handlers), "loggers": []}
+    root.handlers = [logging.NullHandler()]            # whatever is logged during the block is not this run's output
+    if cfg.get("logger") is not None:
+        lgr = logging.getLogger(cfg["logger"])
+        saved["loggers"].append((lgr, lgr.level, list(lgr.handlers), lgr.disabled))
+        if cfg.get("handler"):
+            h = logging.NullHandler() if cfg["handler"] == "null" else logging.StreamHandler(io.StringIO())
+            h.setLevel(logging.DEBUG)
+            lgr.handlers = [h]
+        lgr.disabled = False
+        lgr.setLevel(getattr(logging, cfg["level"]))
+    if cfg.get("disable"):
+        logging.disable(getattr(logging, cfg["disable"]))
+    return saved
+
+
+def restore_logging(saved):
+    root = logging.getLogger()
+    for lgr, level, handlers, disabled in saved["loggers"]:
+        lgr.handlers = handlers
+        lgr.disabled = disabled
+        lgr.setLevel(level)
+    root.handlers = saved["root_handlers"]
+    logging.disable(saved["disable"])
+
+
 def _noop_errcall(kind, flag):
     return None
 
@@ -379,7 +429,9 @@ def gen_envs(rng):
                      "locale": loc if (full or rng.random() < 0.5) else None,
                      "decimal_prec": rng.choice([3, 7, 50]) if (full or rng.random() < 0.5) else None,
                      "printopts": full or rng.random() < 0.5,
-                     "seterr": rng.choice(SETERR_MODES) if (full or rng.random() < 0.5) else None})
+                     "seterr": rng.choice(SETERR_MODES) if (full or rng.random() < 0.5) else None,
+                     # the run's own zone: a configuration in which pyorbital's loggers are enabled for DEBUG
+                     "logging": rng.choice(LOGGING_DEBUG) if full else rng.choice(LOGGING_DEBUG + LOGGING_OTHER + [None, None])})
     return envs
 
 
@@ -390,7 +442,10 @@ def under_env(env):
     _mods()
     saved = capture()
     tmp = None
+    saved_logging = None
     try:
+        if env.get("logging"):
+            saved_logging = apply_logging(env["logging"])
         if env.get("tz"):
             os.environ["TZ"] = env["tz"]
             time.tzset()
@@ -418,6 +473,8 @@ def under_env(env):
         yield
     finally:
         reinstate(saved)
+        if saved_logging is not None:
+            restore_logging(saved_logging)
         if tmp:
             shutil.rmtree(tmp, ignore_errors=True)
 
@@ -440,6 +497,8 @@ def _times(q, epoch):
         for i in q.get("nat") or []:                   # missing scan lines: NaT among the times
             t[i % len(t)] = np.datetime64("NaT")
         return t.reshape(q["shape"]) if q.get("shape") else t
+    if q["tk"] == "obj":
+        return obj_times(q, epoch)
     t = epoch + np.timedelta64(us[0], "us")
     if q["tk"] == "py":                                # a naive datetime.datetime ("assumed to be UTC")
         return t.astype(dt.datetime)
@@ -448,6 +507,59 @@ def _times(q, epoch):
     if q.get("unit"):                                  # the caller's clock resolution: datetime64[s], [m], [h], [ms], [ns] ...
         t = t.astype("datetime64[%s]" % q["unit"])
     return t
+
+
+def obj_times(q, epoch):
+    """The instants as PYTHON OBJECTS in a container: an ndarray of dtype object, a list or a tuple whose elements are aware
+    datetimes in UTC ('utc'), aware datetimes in other zones ('off': the same instants, offsets in minutes), naive
+    datetimes ('naive'), numpy.datetime64 scalars ('np') or a mixture."""
+    np = _np()
+    out = []
+    for i, u in enumerate(q["us"]):
+        s = epoch + np.timedelta64(u, "us")
+        kind = q["elem"] if q["elem"] != "mixed" else ("utc", "off", "naive", "np")[i % 4]
+        if kind == "np":
+            out.append(s)
+            continue
+        d = s.astype("datetime64[us]").astype(dt.datetime)
+        if kind in ("utc", "off"):
+            d = d.replace(tzinfo=dt.timezone.utc)
+        if kind == "off":
+            d = d.astimezone(dt.timezone(dt.timedelta(minutes=int(q["offsets"][i % len(q["offsets"])]))))
+        out.append(d)
+    if q["cont"] == "ndarray":
+        a = np.empty(len(out), dtype=object)
+        for i, v in enumerate(out):
+            a[i] = v
+        return a.reshape(q["shape"]) if q.get("shape") else a
+    return out if q["cont"] == "list" else tuple(out)
+
+
+def elements(x):
+    """the element OBJECTS of a container of Python objects (object ndarray, list, tuple), else None"""
+    np = _np()
+    if isinstance(x, np.ndarray) and x.dtype == object:
+        return x.ravel().tolist()
+    if isinstance(x, (list, tuple)):
+        return list(x)
+    return None
+
+
+def elements_changed(before, args):
+    """which argument containers hold other element objects than before the call (identity), as text; '' if none"""
+    out = []
+    for i, (b, a) in enumerate(zip(before, args)):
+        now = elements(a)
+        if b is None or now is None:
+            continue
+        if len(b) != len(now):
+            out.append("argument %d: %d elements, was %d" % (i, len(now), len(b)))
+            continue
+        for k, (x, y) in enumerate(zip(b, now)):
+            if x is not y:
+                out.append("argument %d element %d was %s and now is %s" % (i, k, short(x, 80), short(y, 80)))
+                break
+    return "; ".join(out)
 
 
 def mkargs(q, epoch):
@@ -466,7 +578,7 @@ def mkargs(q, epoch):
             return a.reshape(q["shape"]) if q.get("shape") else a
         if m == "mod_get_observer_look":               # the module-level function: satellite sub-point grids first
             return [grid("slon"), grid("slat"), grid("salt"), t, grid("lon"), grid("lat"), grid("alt")]
-        if q["tk"] == "arr" or "dtype" in q:
+        if q["tk"] in ("arr", "obj") or "dtype" in q:
             return [t, grid("lon"), grid("lat"), grid("alt")]
         return [t, float(q["lon"][0]), float(q["lat"][0]), float(q["alt"][0])]
     if m == "get_orbit_number":
@@ -514,9 +626,46 @@ def gen_pool(rng, centre=None):
                  "alt": [rng.uniform(0, 3) for _ in range(n)]})
     pool.append({"m": "get_last_an_time", "tk": rng.choice(["np", "py"]), "us": [us(-day / 4, day / 4)]})
     pool.extend(fill_queries(rng))
+    pool.extend(obj_queries(rng, us))
     pool.append({"m": "get_next_passes", "tk": "py", "us": [us(-day / 4, day / 4)], "length": rng.choice([1, 1, 2]),
                  "lon": [rng.uniform(-180, 180)], "lat": [rng.uniform(-80, 80)], "alt": [rng.uniform(0, 2)]})
     return pool
+
+
+OBJ_ELEMS = ["utc", "off", "naive", "np", "mixed"]
+OBJ_OFFSETS = [60, -300, 345, 570, -210, 0, 765, -720, 1]          # minutes east of Greenwich
+
+
+def obj_time(rng, n, elem=None, cont=None):
+    """descriptor of a time argument handed over as a container of Python objects"""
+    return {"tk": "obj", "elem": elem or rng.choice(OBJ_ELEMS), "cont": cont or rng.choice(["ndarray", "ndarray", "list", "tuple"]),
+            "offsets": [rng.choice(OBJ_OFFSETS) for _ in range(n)]}
+
+
+def obj_queries(rng, us=None):
+    """array-taking queries whose time argument is an object ndarray of aware datetimes (UTC; other offsets), and two with a
+    drawn container (object ndarray, list, tuple) and element kind (aware UTC / aware other offsets / naive / datetime64
+    scalars / mixed); the container and its elements must come back as they were (same objects, same tzinfo)"""
+    day = 86400
+    us = us or (lambda lo, hi: rng.randrange(int(lo * 1e6), int(hi * 1e6)))
+    out = []
+    for elem, cont in (("utc", "ndarray"), ("off", "ndarray"), (None, None), (None, None)):
+        m = rng.choice(["get_position", "get_lonlatalt", "get_observer_look", "mod_get_observer_look"])
+        shape = rng.choice([None, None, [2, 2], [3, 1]]) if m != "get_lonlatalt" else None
+        n = shape[0] * shape[1] if shape else rng.randrange(1, 6)
+        q = dict({"m": m, "us": [us(-day, day) for _ in range(n)]}, **obj_time(rng, n, elem, cont))
+        if shape and q["cont"] == "ndarray":
+            q["shape"] = shape
+        if m == "get_position":
+            q["normalize"] = rng.random() < 0.5
+        if m in ("get_observer_look", "mod_get_observer_look"):
+            q.update(lon=[rng.uniform(-180, 180) for _ in range(n)], lat=[rng.uniform(-90, 90) for _ in range(n)],
+                     alt=[rng.uniform(0, 3) for _ in range(n)])
+        if m == "mod_get_observer_look":
+            q.update(slon=[rng.uniform(-180, 180) for _ in range(n)], slat=[rng.uniform(-80, 80) for _ in range(n)],
+                     salt=[rng.uniform(300, 1500) for _ in range(n)])
+        out.append(q)
+    return out
 
 
 FILLS = [-999.0, 1e30, 9999.0, float("nan"), -1e30, 361.0, float("inf"), float("-inf")]
@@ -718,6 +867,7 @@ def run_history(sat, hist, on_violation, count=None, got_out=None):
             continue
         args = mkargs(q, sat.epoch)
         a0 = fp(args)
+        e0 = [elements(a) for a in args]               # the element objects of object arrays / lists / tuples (kept alive)
         t0 = fp(orb.tle.__dict__)
         p0 = proc_state()
         timed_out = False
@@ -739,7 +889,11 @@ def run_history(sat, hist, on_violation, count=None, got_out=None):
             on_violation("process_state_modified", case, "changed by %s: %s" % (q["m"], state_change_text(p0, p1)),
                          "process/thread state unchanged by a query", q["m"])
         if fp(args) != a0:
-            on_violation("argument_modified", case, "arguments of %s changed by the call" % q["m"], "arguments unchanged", q["m"])
+            on_violation("argument_modified", case, "arguments of %s changed by the call%s" % (
+                q["m"], (": " + elements_changed(e0, args)) if elements_changed(e0, args) else ""), "arguments unchanged", q["m"])
+        elif elements_changed(e0, args):
+            on_violation("argument_modified", case, "arguments of %s changed by the call: %s" % (q["m"], elements_changed(e0, args)),
+                         "arguments unchanged (the same element objects)", q["m"])
         if fp(orb.tle.__dict__) != t0:
             on_violation("tle_modified", case, "Tle attributes changed by %s" % q["m"], "Tle unchanged", q["m"])
         m1 = module_state()
@@ -914,7 +1068,10 @@ def compare_with_child(begun, on_violation, count=None, note=None):
 ENV_KINDS = ["get_position", "get_lonlatalt", "get_observer_look", "mod_get_observer_look", "get_orbit_number",
              "get_last_an_time", "get_next_passes"]
 ENV_REPRS = [{"tk": "py"}, {"tk": "pyutc"}, {"tk": "np"}, {"tk": "np", "unit": "s"}, {"tk": "np", "unit": "ms"},
-             {"tk": "np", "unit": "ns"}, {"tk": "np", "unit": "m"}, {"tk": "arr"}]
+             {"tk": "np", "unit": "ns"}, {"tk": "np", "unit": "m"}, {"tk": "arr"},
+             {"tk": "obj", "elem": "utc", "cont": "ndarray", "offsets": [0]},
+             {"tk": "obj", "elem": "off", "cont": "ndarray", "offsets": [345, -300, 60, 765]}]
+LONG_PASS_HOURS = [6, 12, 24]                       # pass searches that find several passes
 
 
 def gen_env_queries(rng, sat, full):
@@ -926,7 +1083,7 @@ def gen_env_queries(rng, sat, full):
     for m in ENV_KINDS:
         reps = ENV_REPRS if full else [ENV_REPRS[0]] + rng.sample(ENV_REPRS[1:], 3)
         for rep in reps:
-            n = rng.randrange(2, 5) if rep["tk"] == "arr" else 1
+            n = rng.randrange(2, 5) if rep["tk"] in ("arr", "obj") else 1
             if m == "get_next_passes":
                 q = dict(pass_query(rng, sat), **rep)
                 if n > 1:
@@ -945,7 +1102,11 @@ def gen_env_queries(rng, sat, full):
             if m == "get_orbit_number":
                 q.update(tbus=rng.random() < 0.3, as_float=rng.random() < 0.7)
             out.append(q)
-    return out
+    # a pass search over 6-24 hours (several passes: every later horizon crossing is refined after a completed pass); first,
+    # so that the time budget of the stage cannot cut it off
+    q = dict(pass_query(rng, sat), tk="py")
+    q["length"] = rng.choice(LONG_PASS_HOURS)
+    return [q] + out
 
 
 def eval_under(tle, q, env):
@@ -1971,7 +2132,8 @@ def oracle(ctx):
                 run_env_case(sat.tle, q, env, base, viol, count=lambda: ctx.count("eval_environment_query"))
             ctx.distinct((sat.tle[0][2:7], "e", qkey(q)))
             ctx.bump("environment_queries", "%s(%s%s)" % (q["m"], {"py": "naive datetime", "pyutc": "aware UTC datetime",
-                                                                     "np": "datetime64", "arr": "datetime64 array"}[q["tk"]],
+                                                                     "np": "datetime64", "arr": "datetime64 array",
+                                                                     "obj": "object array of aware datetimes"}[q["tk"]],
                                                             "[%s]" % q["unit"] if q.get("unit") else ""))
     mark("(1e) environments")
     # (1b) aliasing histories: one argument buffer re-used and changed in place between consecutive queries
